@@ -232,16 +232,16 @@ def instances(tier):
         I("cap1-k2-state", "make", (1, 2, 3, "state"), "capacity 1, 2 updates in a 3 s span", budget_s=200, **kw),
         I("cap2-k2-state", "make", (2, 2, 5, "state"), "capacity 2, 2 updates in a 5 s span: state after every update", budget_s=300, **kw),
         I("cap2-k2-dtq", "make", (2, 2, 4, "dtq"), "capacity 2, 2 updates in a 4 s span + datetime query", budget_s=600, **kw),
-        I("cap2-k2-idxq", "make", (2, 2, 3, "idxq"), "capacity 2, 2 updates in a 3 s span + index query", budget_s=600, **kw),
+        I("cap2-k2-idxq", "make", (2, 2, 2, "idxq"), "capacity 2, 2 updates in a 2 s span + index query", budget_s=600, **kw),
         I("cap2-k2-at", "make_at", (2, 2, 4), "MovingWindow.at / [] with index or datetime key, capacity 2, 2 updates", budget_s=300, **kw),
         I("grid-cap4-k4-state", "make", (4, 4, 6, "state", False, True), "capacity 4, 4 updates on the slot grid (7 slots): state after every update", budget_s=300, **kw),
-        I("grid-cap3-k3-dtq", "make", (3, 3, 5, "dtq", False, True), "capacity 3, 3 updates on the slot grid + symbolic datetime query", budget_s=300, **kw),
+        I("grid-cap3-k3-dtq", "make", (3, 3, 4, "dtq", False, True), "capacity 3, 3 updates on the slot grid (5 slots) + symbolic datetime query", budget_s=300, **kw),
     ]
     if tier != "quick":
         out += [
             I("cap1-k3-state", "make", (1, 3, 4, "state"), "capacity 1, 3 updates in a 4 s span", budget_s=400, **kw),
             I("cap2-k2-dtq-span5", "make", (2, 2, 5, "dtq"), "capacity 2, 2 updates in a 5 s span + datetime query", budget_s=600, **kw),
-            I("cap2-k2-idxq-span5", "make", (2, 2, 5, "idxq"), "capacity 2, 2 updates in a 5 s span + index query", budget_s=900, **kw),
+            I("cap2-k2-idxq-span4", "make", (2, 2, 4, "idxq"), "capacity 2, 2 updates in a 5 s span + index query", budget_s=900, **kw),
             I("cap3-k3-state", "make", (3, 3, 5, "state"), "capacity 3, 3 updates in a 5 s span: state after every update", budget_s=1500, validate_every=2000),
             I("cap2-k3-dtq", "make", (2, 3, 5, "dtq"), "capacity 2, 3 updates + datetime query (budgeted)", budget_s=900, exhaustive=False, validate_every=2000),
             I("cap3-k3-dtq", "make", (3, 3, 5, "dtq"), "capacity 3, 3 updates + datetime query (budgeted)", budget_s=900, exhaustive=False, validate_every=5000),
